@@ -156,7 +156,24 @@ func c14Gen() *rapid.Generator[string] {
 		}),
 	)
 	return rapid.Custom(func(t *rapid.T) string {
-		switch rapid.IntRange(0, 9).Draw(t, "shape") {
+		switch rapid.IntRange(0, 10).Draw(t, "shape") {
+		case 10:
+			// a multi-byte character wrapped around itself k times with a control character at the core:
+			// each removal lets the next layer join up, so cleaning takes k rounds (k up to several hundred)
+			enc := string(rapid.SampledFrom([]rune{0x80, 0x9f, 0x85, 0xa0, 0x2028, 0x3000, 'é', 0x200b}).Draw(t, "nest-rune"))
+			k := rapid.SampledFrom([]int{1, 2, 3, 7, 31, 32, 33, 63, 64, 65, 99, 100, 101, 127, 128, 129, 200, 255, 256, 257, 330, 490}).Draw(t, "nest-depth")
+			if k*len(enc) > 994 {
+				k = 994 / len(enc)
+			}
+			core := rapid.SampledFrom([]string{"\x01", "\x00", "\x7f", "\x1b", "\x9f"}).Draw(t, "nest-core")
+			s := strings.Repeat(enc[:1], k) + core + strings.Repeat(enc[1:], k)
+			if rapid.Bool().Draw(t, "nest-words") {
+				s = "list " + s + " files"
+				if len(s) > 1000 {
+					s = s[:1000]
+				}
+			}
+			return s
 		case 0:
 			return rapid.String().Draw(t, "s")
 		case 1:
